@@ -165,6 +165,24 @@ func genTSSCase(rt *rapid.T, p tssProfile) tssCase {
 			}
 			continue
 		}
+		if gen.Chance(rt, "sameblock-completions", 1, 25) {
+			// two or three signings in flight whose last missing shares all arrive in ONE block, in a drawn order of the
+			// signings (ascending, descending, mixed): every one of them is complete at the end of that block
+			n := gen.Range(rt, "sbn", 2, 3)
+			for i := 0; i < n; i++ {
+				c.Ops = append(c.Ops, tssOp{K: "req", M: 0, N: 3 + i, Variant: "enough"})
+				if gen.Chance(rt, "sbsplit", 1, 2) {
+					c.Ops = append(c.Ops, tssOp{K: "end", N: 1})
+				}
+			}
+			c.Ops = append(c.Ops, tssOp{K: "end", N: 1})
+			order := [][]int{{1, 0, 2}, {2, 1, 0}, {0, 1, 2}, {2, 0, 1}}[gen.Uniform(rt, "sborder", 4)]
+			for _, si := range order {
+				c.Ops = append(c.Ops, tssOp{K: "sigall", S: si, Mask: 0xff})
+			}
+			c.Ops = append(c.Ops, tssOp{K: "end", N: 1}, tssOp{K: "end", N: 1})
+			continue
+		}
 		if gen.Chance(rt, "skipids", 1, 40) {
 			// other users of x/tss (tunnels, oracle results, transitions) advance the signing counter: jump it so that
 			// ids of signings in flight differ by multiples of 256 / cross 2^16 (key widths, id arithmetic)
